@@ -174,14 +174,29 @@ func (c *c16Client) plan(ci CallInfo) Outcome {
 			}
 		}
 	}
+	// With duplicates of a key (sequential runs only) the goroutines run in list
+	// order: the k-th Get of the key belongs to the k-th duplicate, a dry-run write
+	// follows the Get of its own goroutine, and in the establish phase every
+	// duplicate issues its real write (they share key, state and role) in order.
 	idx := -1
 	if len(cands) > 0 {
-		n := c.seen[key+"|"+phase]
-		c.seen[key+"|"+phase] = n + 1
-		if n < len(cands) {
-			idx = cands[n]
+		if phase == "dry" || (phase == "real" && c.mode == "rel") {
+			if v, ok := c.seen[key+"|cur"]; ok {
+				idx = v
+			} else {
+				idx = cands[0]
+			}
 		} else {
-			idx = cands[len(cands)-1]
+			n := c.seen[key+"|"+phase]
+			c.seen[key+"|"+phase] = n + 1
+			if n < len(cands) {
+				idx = cands[n]
+			} else {
+				idx = cands[len(cands)-1]
+			}
+			if phase == "get" {
+				c.seen[key+"|cur"] = idx
+			}
 		}
 	}
 	c.calls = append(c.calls, c16Call{Verb: ci.Verb, Key: key, Dry: ci.DryRun, Body: c.pending, Idx: idx, Phase: phase, Mode: c.mode})
@@ -806,7 +821,7 @@ func c16Monitor(s *c16Step, before []c16Obj, refsBefore []c16XRef, so c16StepObs
 // ---------------------------------------------------------------- generator
 
 var (
-	c16Keys = []string{"Composition/a", "Composition/b", "Composition/c", "XRD/a", "XRD/d", "Composition/e"}
+	c16Keys = []string{"Composition/a", "Composition/b", "Composition/c", "XRD/a", "XRD/d", "Composition/e", "CRD/x", "CRD/y"}
 	// reconcile histories: distinct names (status.objectRefs are sorted by an id that ignores a cleared kind)
 	c16HKeys = []string{"Composition/b", "Composition/c", "XRD/a", "XRD/d", "Composition/e"}
 )
@@ -839,7 +854,7 @@ func c16GenParent(r *Rng, uid int) c16Parent {
 func c16GenOwners(r *Rng, me int) ([]c16Ref, string) {
 	pkg := me / 10
 	prev := pkg*10 + (me%10+1)%3
-	otherPkg := 3 - pkg
+	otherPkg := pkg%3 + 1
 	otherRev := otherPkg*10 + r.Intn(2)
 	out := []c16Ref{}
 	cls := ""
@@ -903,7 +918,14 @@ func c16StateNames(m map[string]bool) string {
 
 func c16GenEstablish(r *Rng, store *[]c16Obj) (c16Step, string) {
 	me := Pick(r, []int{10, 11, 12, 20, 21})
+	tls := "noRuntime"
+	if r.Chance(1, 4) {
+		// a ProviderRevision parent (package 3): the webhook TLS server secret matters
+		me = Pick(r, []int{30, 31, 32})
+		tls = Pick(r, []string{"present", "present", "noName", "missing", "empty"})
+	}
 	s := c16NewStep("establish", c16GenParent(r, me))
+	s.Parent.TLS = tls
 	s.Control = r.Chance(3, 5)
 	s.Conc = Pick(r, []int{1, 1, 2, 4})
 	n := r.Range(1, 5)
@@ -912,7 +934,11 @@ func c16GenEstablish(r *Rng, store *[]c16Obj) (c16Step, string) {
 	}
 	perm := r.Perm(len(c16Keys))
 	for i := 0; i < n; i++ {
-		s.Objs = append(s.Objs, c16Des{Key: c16Keys[perm[i]], Body: r.Range(1, 4)})
+		d := c16Des{Key: c16Keys[perm[i]], Body: r.Range(1, 4)}
+		if strings.HasPrefix(d.Key, "CRD/") && r.Chance(1, 3) {
+			d.Conv = true
+		}
+		s.Objs = append(s.Objs, d)
 	}
 	dup := false
 	if n > 0 && s.Conc == 1 && r.Chance(1, 12) {
@@ -929,7 +955,7 @@ func c16GenEstablish(r *Rng, store *[]c16Obj) (c16Step, string) {
 		if c16Find(*store, d.Key) != nil {
 			continue
 		}
-		if r.Chance(2, 5) {
+		if r.Chance(2, 5) || d.Conv {
 			states["absent"] = true
 			continue
 		}
@@ -956,6 +982,19 @@ func c16GenEstablish(r *Rng, store *[]c16Obj) (c16Step, string) {
 		s.Faults = c16GenFaults(r, len(s.Objs), []string{"get", "dry", "real", "real"}, s.Conc == 1)
 		if len(s.Faults) > 0 {
 			fk = "fault-" + s.Faults[0].Phase + "-" + s.Faults[0].Out
+		}
+	case 4:
+		if tls != "noRuntime" && tls != "noName" && s.Conc == 1 {
+			s.Faults = append(s.Faults, c16Fault{I: 0, Phase: "tls", Out: Pick(r, []string{"fail", "conflict", "crashBefore", "crashAfter"})})
+			fk = "fault-tls"
+		}
+	}
+	if tls == "missing" || tls == "empty" {
+		fk = "tls-" + tls
+	}
+	for _, d := range s.Objs {
+		if d.Conv && s.Control && tls != "present" {
+			fk = "crd-needs-ca"
 		}
 	}
 	if len(s.Objs) == 0 {
